@@ -13,6 +13,9 @@ log = open(os.path.join(d, "confirm.log")).read()
 lines = [l for l in log.splitlines() if re.match(r"^(build|suite|demo|check) ", l)]
 caught = [l.split(":")[0].replace("check ", "") for l in lines if l.startswith("check ") and "DETECTED" in l]
 missed = [l.split(":")[0].replace("check ", "") for l in lines if l.startswith("check ") and "not detected" in l]
+caught = sorted(set(caught))
+first_missed = sorted(set(m for m in missed if m in caught))
+missed = sorted(set(m for m in missed if m not in caught))
 meta = {
     "seed_id": sid,
     "breaks_property": am.get("property", sid[:3]),
@@ -25,6 +28,7 @@ meta = {
     "checks_run": [l for l in lines if l.startswith("check ")],
     "caught_by": caught,
     "not_caught_by": missed,
+    "missed_on_an_earlier_run_caught_after_strengthening": first_missed,
     "notes": sys.argv[2] if len(sys.argv) > 2 else "",
 }
 json.dump(meta, open(os.path.join(d, "meta.json"), "w"), indent=1)
